@@ -160,6 +160,9 @@ Section Live.
 
   (** executeField's promise adapter *)
   with LiveF : fplan -> rpath -> clo -> ghost -> Prop :=
+  | LF_sync tag nn v p c g :
+      LiveW nn v p c g ->
+      LiveF (FP tag nn (Some v)) p c g
   | LF_wait tag nn res p id :
       option_map p_ok (nth_error (s_proms s) id) = Some (is_some res) ->
       LiveF (FP tag nn res) p
